@@ -128,11 +128,12 @@ def theorem_names(pid):
 
 
 def props_files(pid):
-    """Props/<pid>.lean and, when present, Props/<pid>K.lean (ties of translated kernels to the models)"""
-    out = [os.path.join(LEAN, 'PdbVerif', 'Props', f'{pid}.lean')]
-    k = os.path.join(LEAN, 'PdbVerif', 'Props', f'{pid}K.lean')
-    if os.path.exists(k):
-        out.append(k)
+    """Props/<pid>.lean and, when present, Props/<pid>K.lean, Props/<pid>K2.lean, ... (ties of translated code to the models)"""
+    d = os.path.join(LEAN, 'PdbVerif', 'Props')
+    out = [os.path.join(d, f'{pid}.lean')]
+    for f in sorted(os.listdir(d)):
+        if re.fullmatch(re.escape(pid) + r'K\d*\.lean', f):
+            out.append(os.path.join(d, f))
     return out
 
 
